@@ -12,12 +12,20 @@ META = {
 }
 
 KINDS = ["pass", "pass_print", "fail_assert", "fail_assert_print", "fail_index", "fail_div", "comp_bal", "pass_bare",
-         "pass_nested", "fail_nested", "comp_paren", "comp_bracket", "comp_directive", "fail_undefined"]
+         "pass_nested", "fail_nested", "comp_paren", "comp_bracket", "comp_directive", "fail_undefined", "comp_type", "pass_type"]
 UNBAL = ["comp_open", "comp_close"]
 
 
-def body(kind, i):
+def body(kind, i, ctx=None):
+    """ctx: per-file dict; a non-compiling test that declared a type must not leak the name to a later test"""
+    ctx = ctx if ctx is not None else {}
     p = 'fmt.Println("out%03d")' % i
+    if kind == "comp_type":
+        ctx["tname"] = "Tleak%03d" % i
+        return "{\n  type %s struct { a int }\n  x := \n}" % ctx["tname"]
+    if kind == "pass_type":
+        tn = ctx.pop("tname", "Tonly%03d" % i)
+        return "{\n  type %s struct { a int }\n  v := %s{a: %d}\n  @assert v.a == %d\n}" % (tn, tn, i, i)
     B = {
         "pass": "{\n  @assert 1 == 1\n}",
         "pass_print": "{\n  %s\n  @assert true\n}" % p,
@@ -42,7 +50,7 @@ def body(kind, i):
 def outcome(kind, i):
     """(model outcome constructor text, expects print id or None, verdict)"""
     pr = "[%d%%N]" % i
-    if kind in ("pass", "pass_bare", "pass_nested"):
+    if kind in ("pass", "pass_bare", "pass_nested", "pass_type"):
         return "Pass []", True
     if kind == "pass_print":
         return "Pass %s" % pr, True
@@ -122,7 +130,7 @@ def run(ck):
     corpus = [["pass", "fail_assert", "pass"], ["fail_index", "pass_print"], ["comp_bal", "fail_div", "pass"],
               ["fail_assert_print", "fail_assert_print", "pass_print"], ["pass", "comp_open", "pass", "fail_assert"],
               ["comp_close", "pass"], ["pass_bare", "fail_nested", "pass_bare", "pass_nested"],
-              ["pass", "comp_directive", "fail_undefined", "pass"], ["comp_paren", "pass", "comp_bracket", "pass_print", "fail_undefined", "pass"]]
+              ["pass", "comp_directive", "fail_undefined", "pass"], ["pass_type", "comp_type", "pass", "pass_type", "comp_type", "fail_assert", "pass_type"], ["comp_paren", "pass", "comp_bracket", "pass_print", "fail_undefined", "pass"]]
     if not files:
         files = list(corpus)
         while len(files) < nfiles:
@@ -135,7 +143,8 @@ def run(ck):
     base = 0
     paths = []
     for fi, ks in enumerate(files):
-        src = "\n".join('@test "t%03d"\n%s' % (base + i + 1, body(k, base + i + 1)) for i, k in enumerate(ks)) + "\n"
+        ctx = {}
+        src = "\n".join('@test "t%03d"\n%s' % (base + i + 1, body(k, base + i + 1, ctx)) for i, k in enumerate(ks)) + "\n"
         path = os.path.join(ck.work, "f%03d.ego" % fi)
         open(path, "w").write(src)
         paths.append(path)
